@@ -66,6 +66,9 @@ class Contract:
         self.call_variants = dict(kw.pop("call_variants", {}))
         # general float * and / of two unknown operands become uninterpreted functions (see Engine.fp_uf)
         self.float_abstract = kw.pop("float_abstract", False)
+        # names of @spec_fn functions whose definition this contract's proof never unfolds (used by congruence only)
+        self.opaque_specs = set(kw.pop("opaque_specs", []))
+        self.mixed_int_merge = kw.pop("mixed_int_merge", False)
         if kw:
             raise TypeError("unknown contract options %r for %s" % (list(kw), key))
         self._clauses = {}
